@@ -73,7 +73,23 @@ func (r *VerifRuntime) AllowedMethodsFor(req *http.Request, p string) []string {
 	return r.state.allowedMethodsFor(req, p)
 }
 
-func VerifNormalizeHost(h string) string { return normalizeHost(h) }
-func VerifParseRemoteAddrIP(s string) (netip.Addr, bool) { return parseRemoteAddrIP(s) }
-func VerifMatchHosts(h string, allowed []string) bool { return matchHosts(h, allowed) }
+// Helper twins (normalizeHost, matchHosts, parseRemoteAddrIP) are exported by the OPTIONAL shim zz_verifopt_c10.go through these
+// variables; they stay nil when the source no longer has a helper of that name and shape.
+var (
+	VerifNormalizeHostFn     func(h string) string
+	VerifParseRemoteAddrIPFn func(s string) (netip.Addr, bool)
+	VerifMatchHostsFn        func(h string, allowed []string) bool
+)
+
+// VerifHostsMatchThroughResolve asks the resolver itself: a state with one route whose only criterion is the host list.
+func VerifHostsMatchThroughResolve(h string, allowed []string) bool {
+	st := newRuntimeState(config.Compiled{Routes: []config.CompiledRoute{{Path: "/verif-host", Match: config.MatchConfig{Hosts: allowed}}}})
+	req, err := http.NewRequest(http.MethodPost, "http://placeholder.invalid/verif-host", nil)
+	if err != nil {
+		return false
+	}
+	req.Host = h
+	_, ok := st.resolveIngress(req, "/verif-host")
+	return ok
+}
 func VerifMountPrefix(prefix string, next http.Handler) http.Handler { return mountPrefix(prefix, next) }
